@@ -78,7 +78,20 @@ def main(tier):
                 return ["result is %s %r, expected a %s carrying a unit" % (type(res).__name__, res if not hasattr(res, "shape") else "ndarray", cls)]
             ents = [[c, u, e] for c, (u, e) in res.GetQuantity().GetCategoryToUnitAndExps().items()]
             want_q = [[e["c"], e["u"], e["e"]] for e in row["rq"]]
-            if ents != want_q:
+            phys = row["qsel"] == "twounit" and row["op"] == "k/x"      # compared by dimension and base-unit amount (the units may have been matched)
+            if phys:
+                def dim_and_factor(es):
+                    dim, f = {}, 1.0
+                    for c_, u_, e_ in es:
+                        i_ = db.unit_to_unit_info[u_]
+                        dim[i_.quantity_type] = dim.get(i_.quantity_type, 0) + e_
+                        f *= (i_.tobase(1.0) - i_.tobase(0.0)) ** e_
+                    return {k_: v_ for k_, v_ in dim.items() if v_}, f
+                (d_o, f_o), (d_w, f_w) = dim_and_factor(ents), dim_and_factor(want_q)
+                if d_o != d_w:
+                    diffs.append("dimension predicted %r observed %r" % (d_w, d_o))
+                want_vals = [w_ * f_w / f_o for w_ in want_vals]
+            elif ents != want_q:
                 diffs.append("composing map predicted %r observed %r" % (want_q, ents))
             if row["qsel"] == "captioned" and row["op"] not in ("k/x", "k//x") and res.GetQuantity().GetUnknownCaption() != "Gamma API":
                 diffs.append("the result does not keep x's quantity: caption %r instead of 'Gamma API'" % res.GetQuantity().GetUnknownCaption())
